@@ -29,6 +29,7 @@
    must equal jdeps; (2) every execution of the generated programs must make the calls,
    return the error and leave the results the model computes. *)
 From CffVerif Require Import FlowOpModel FlowOpProofs ValidateModel FlowAdequacy FlowComplete FlowListing FlowBridge.
+From CffVerif Require TopoModel TopoProofs.
 
 Theorem C02_schedule_independent :
   forall f sc, unique_providers f ->
@@ -159,6 +160,22 @@ Proof.
   - intros k e pc tc. apply (failure_listing_independent f f' p q); assumption.
 Qed.
 Print Assumptions C02_listing_order_independent.
+
+(* ---- the order in which the generated code declares and enqueues the jobs (toposort of
+   internal/graph.go, a depth-first post-order; TopoModel): for every acyclic dependency
+   function (some rank decreases along every edge) it yields every node exactly once, each
+   after all of its dependencies - so every `Dependencies: []{taskM.job}` refers to a job
+   already enqueued, which is also what the scheduler model requires of a configuration
+   (wf_cfg). Tie: differential run of the real toposort on generated graphs. *)
+Theorem C02_enqueue_order :
+  forall (deps : nat -> list nat) (count : nat) (rk : nat -> nat),
+    (forall n d, In d (deps n) -> rk d < rk n) ->
+    (forall n d, n < count -> In d (deps n) -> d < count) ->
+    forall fuel, (forall n, n < count -> rk n < fuel) ->
+      let r := TopoModel.toposort deps fuel count in
+      NoDup r /\ (forall n, In n r <-> n < count) /\ TopoProofs.ordered deps r.
+Proof. exact TopoProofs.toposort_valid. Qed.
+Print Assumptions C02_enqueue_order.
 
 (* ---- composition with Layer 0 (SchedFlowCompose). `reach` above is an assumption about the
    scheduler; this theorem discharges it: for every configuration of the scheduler model
